@@ -105,18 +105,34 @@ func C14(run *mon.Run) {
 			}
 			cust := mon.RandBytes(r, si%13)
 			rep := map[string]any{"seed": mon.Hex(seed), "customizer": mon.Hex(cust), "reads": sq}
-			g, err := random.NewChacha20PRG(seed, cust)
+			// seed and customizer are fronts of larger caller buffers that the caller wipes right after
+			// construction: the generator must have copied them and written nothing behind them
+			seedArg, custArg := withSpare(seed), withSpare(cust)
+			g, err := random.NewChacha20PRG(seedArg, custArg)
 			if err != nil {
 				run.Violate("C14:constructor-refuses-valid", err.Error(), rep)
 				return
 			}
+			if !spareIntact(seedArg, seed) || !spareIntact(custArg, cust) {
+				run.Violate("C14:constructor-touches-caller-memory", "NewChacha20PRG wrote to the buffers of its arguments", rep)
+			}
+			for i := range seedArg {
+				seedArg[i] = 0
+			}
+			for i := range custArg {
+				custArg[i] = 0xEE
+			}
 			run.Guard("Read-sequence", rep, func() {
 				off := uint64(0)
 				for ri, n := range sq {
-					buf := bytes.Repeat([]byte{0xA5}, n) // garbage in the destination must not leak through
+					buf := withSpare(bytes.Repeat([]byte{0xA5}, n)) // garbage in the destination must not leak through
 					g.Read(buf)
 					want := ref.ChaCha20Stream(seed, padNonce(cust), off, n)
 					run.Eval(1)
+					if bytes.Equal(buf, want) && !spareIntact(buf, want) {
+						run.Violate("C14:read-writes-past-buffer", fmt.Sprintf("Read #%d of %d bytes wrote behind the end of the destination slice", ri, n), rep)
+						return
+					}
 					if !bytes.Equal(buf, want) {
 						run.Violate(fmt.Sprintf("C14:keystream:read-%d-after-%d", sizeClass(n), sizeClass(prevSize(sq, ri))), fmt.Sprintf("Read #%d of %d bytes at offset %d differs from the RFC 8439 keystream: got %x want %x", ri, n, off, trunc(buf, 80), trunc(want, 80)), rep)
 						return
@@ -171,11 +187,19 @@ func C14(run *mon.Run) {
 						left -= n
 					}
 					st := g.Store()
-					g2, err := random.RestoreChacha20PRG(st)
+					stArg := withSpare(st)
+					g2, err := random.RestoreChacha20PRG(stArg)
 					run.Eval(1)
 					if err != nil {
 						run.Violate("C14:restore-refuses-valid-state", err.Error(), rep)
 						return
+					}
+					// the caller reuses the state buffer after restoring
+					if !spareIntact(stArg, st) {
+						run.Violate("C14:restore-touches-caller-memory", "RestoreChacha20PRG wrote to the buffer of its argument", rep)
+					}
+					for i := range stArg {
+						stArg[i] = 0x5C
 					}
 					if !bytes.Equal(g2.Store(), st) {
 						run.Violate("C14:store-restore-store", fmt.Sprintf("Store after Restore differs: %x vs %x", g2.Store(), st), rep)
@@ -299,6 +323,26 @@ func C14(run *mon.Run) {
 		run.Eval(1)
 		if err == nil {
 			run.Violate("C14:state-length-accepted", fmt.Sprintf("state of %d bytes accepted", l), nil)
+		}
+	}
+	// a valid state followed by trailing bytes, two concatenated states, a truncated valid state
+	{
+		g, _ := random.NewChacha20PRG(mon.RandBytes(r, 32), mon.RandBytes(r, 5))
+		g.Read(make([]byte, 77))
+		st := g.Store()
+		for _, l := range []int{1, 31, 32, 44, 45, 51, 53, 54, 60, 64, 104, 156, 1052, 4096} {
+			var b []byte
+			if l < len(st) {
+				b = st[:l]
+			} else {
+				b = append(append([]byte{}, st...), bytes.Repeat(st, l/len(st)+1)[:l-len(st)]...)
+			}
+			var err error
+			run.Guard("RestoreChacha20PRG(bad length)", l, func() { _, err = random.RestoreChacha20PRG(b) })
+			run.Eval(1)
+			if err == nil {
+				run.Violate("C14:state-length-accepted", fmt.Sprintf("state of %d bytes (a valid state truncated or extended) accepted", l), nil)
+			}
 		}
 	}
 	_, err := random.RestoreChacha20PRG(nil)
